@@ -48,13 +48,18 @@ pub fn run() {
                     // distances by the independent transcription of the Sharma-Wu-Dalal formula (sharma.rs)
                     // on the Lab coordinates, not by the library's own colour-distance function
                     let lc = c.to_lab();
+                    // coordinates for the independent judge: from the published definitions (sharma::lab_of_srgb)
+                    let fc = c.to_rgba_float();
+                    let ic = crate::sharma::lab_of_srgb(fc.r, fc.g, fc.b);
                     for nc in pastel::named::NAMED_COLORS.iter() {
                         let ln = nc.color.to_lab();
-                        let d = crate::sharma::ciede2000([ln.l, ln.a, ln.b], [lc.l, lc.a, lc.b]);
+                        let fnm = nc.color.to_rgba_float();
+                        let inm = crate::sharma::lab_of_srgb(fnm.r, fnm.g, fnm.b);
+                        let d = crate::sharma::ciede2000(inm, ic);
                         // does the library's own formula differ from the transcription by more than C11 allows? (a hint
                         // for the directed search of C18; pairs with exactly opposite hues excepted)
                         let dl = pastel::delta_e::ciede2000(&ln, &lc);
-                        if (dl - d).abs() > 1e-3 && (crate::sharma::hue_gap([ln.l, ln.a, ln.b], [lc.l, lc.a, lc.b]) - 180.0).abs() > 1e-9 {
+                        if (dl - d).abs() > 1e-3 && (crate::sharma::hue_gap(inm, ic) - 180.0).abs() > 1e-9 {
                             differs.push((d, (dl - d).abs()));
                         }
                         names.push((nc.name.to_string(), d));
